@@ -114,7 +114,6 @@ MCSnapshot(r) ==
 
 MCInstall(r) ==
   /\ nInstall < MaxInstall
-  /\ \A s \in Streams : ~paused[s]
   /\ DoInstall(r)
   /\ last' = [a |-> "Install", r |-> r]
   /\ nInstall' = nInstall + 1 /\ Tick /\ UNCHANGED <<nPub, nFail, nRestart, nTamper, nEnv, nPause, nSub, nLead, nSnap>>
